@@ -573,7 +573,8 @@ class _Run(object):
             raise
         except Exception as e:
             name = type(e).__name__
-            if name not in ALLOWED:
+            if name not in ALLOWED or (name == "StopIteration" and
+                                       action != "next"):
                 raise Violation(dict(sig, oracle="wrong-exception",
                                      exc=name),
                                 "%s step %r after the parked leaf was %s "
